@@ -465,6 +465,11 @@ func registerIntrinsics(in *Interp) {
 		fmt.Fprintf(os.Stderr, "STATS %s: %d term nodes, %d feasibility queries, %d aborts\n", name, TermNodes, in.feasQ, len(in.aborts))
 		return nil
 	}
+	I["#vMapOrder"] = func(fr *Frame, g *Term, args []Value, site ssa.Instruction, fn *ssa.Function) []Value {
+		t, ok := args[0].(*Term)
+		in.permuteMaps = ok && t.IsConst() && sext64(t.val, 64) >= 0
+		return nil
+	}
 	I["#vParam"] = func(fr *Frame, g *Term, args []Value, site ssa.Instruction, fn *ssa.Function) []Value {
 		name, _ := strArg(args[0])
 		if v, ok := in.params[name]; ok {
@@ -1139,6 +1144,23 @@ func registerIntrinsics(in *Interp) {
 		in.abort(mkAnd(g, mkNot(okAll)), "panic", in.curSite, "slice bounds out of range (slices.Delete)")
 		return []Value{&SliceVal{Alts: alts}}
 	}
+
+	fmax := func(isMax bool) Intrinsic {
+		return func(fr *Frame, g *Term, args []Value, site ssa.Instruction, fn *ssa.Function) []Value {
+			a, ok1 := args[0].(*FloatInt)
+			b, ok2 := args[1].(*FloatInt)
+			if !ok1 || !ok2 {
+				return []Value{&Opaque{"math.Max on non-integral floats"}}
+			}
+			less := mkCmp(OpSlt, a.T, b.T)
+			if isMax {
+				return []Value{&FloatInt{mkIte(less, b.T, a.T)}}
+			}
+			return []Value{&FloatInt{mkIte(less, a.T, b.T)}}
+		}
+	}
+	I["math.Max"] = fmax(true)
+	I["math.Min"] = fmax(false)
 
 	I["maps.Clone"] = func(fr *Frame, g *Term, args []Value, site ssa.Instruction, fn *ssa.Function) []Value {
 		m, ok := args[0].(*MapVal)
